@@ -1,0 +1,41 @@
+//! Verification hooks (cargo feature `verif-hooks`, off by default).
+//!
+//! A thread-local callback that the decoder notifies about every primitive read, skip,
+//! sequence-iterator step and chunk-window change. It exists so that an external simulator can
+//! meter progress deterministically (step budget), observe the absolute byte ranges that are
+//! read, and count how often rare branches are reached. Nothing in the library reads anything
+//! back from the hook; with the feature off this module does not exist.
+
+use std::cell::Cell;
+
+#[derive(Debug, Clone, Copy, PartialEq, Eq)]
+pub enum Event {
+    /// a read of `len` bytes at absolute offset `abs` of the input was requested (before any bounds check)
+    Read { abs: usize, len: usize },
+    /// a skip of `len` bytes at absolute offset `abs` of the input was requested (before any bounds check)
+    Skip { abs: usize, len: usize },
+    /// one step of a sequence iterator
+    IterNext,
+    /// a chunk window `[start, end)` (absolute) became the current region
+    RegionPush { start: usize, end: usize },
+    /// the current chunk window was left
+    RegionPop,
+    /// a named branch was taken
+    Probe(&'static str),
+}
+
+thread_local! {
+    static HOOK: Cell<Option<fn(Event)>> = const { Cell::new(None) };
+}
+
+/// Installs (or with `None` removes) the callback of the calling thread, returning the old one.
+pub fn set_hook(hook: Option<fn(Event)>) -> Option<fn(Event)> {
+    HOOK.with(|h| h.replace(hook))
+}
+
+#[inline]
+pub(crate) fn emit(event: Event) {
+    if let Some(hook) = HOOK.with(|h| h.get()) {
+        hook(event);
+    }
+}
